@@ -270,3 +270,10 @@ def _ghost(ex, name):
 def _is_new(ex, o):
     """The object was allocated by the function under contract (distinct from every object it received)."""
     return SBool(z3.Function("is_fresh_object", ObjSort, BoolSort)(o.t))
+
+
+@spec("is_int_str", lambda s: isinstance(s, str) and __import__("re").fullmatch(r"\s*[-+]?[0-9]+(_[0-9]+)*\s*", s) is not None)
+def _is_int_str(ex, s):
+    """int(s) parses (the uninterpreted predicate the int() intrinsic branches on)."""
+    from .intrinsics import P_is_int_str
+    return SBool(P_is_int_str(ex.to_str_term(s)))
